@@ -21,6 +21,7 @@ mod oracle;
 mod poolworld;
 mod props;
 mod repairworld;
+mod sampworld;
 mod replay;
 mod soloworld;
 mod vworld;
@@ -411,6 +412,11 @@ fn cmd_check(args: &[String]) -> i32 {
                 harness_errors.push(format!("non-replayable failure (class {class}, seed {}): {e}", r.seed));
             }
         }
+    }
+
+    for (class, r) in violations_new.iter().skip(3) {
+        let v = r.violations.iter().find(|v| &v.class == class).expect("class present");
+        println!("  further class={class} seed={} variant={} (not minimised) :: {}", r.seed, r.variant_name, v.detail);
     }
 
     let wall_s = t_start.elapsed().as_secs_f64();
